@@ -320,7 +320,7 @@ func (s *mainQueueScheduler) replace(new, old *mainQueueTransaction, seqHeap *se
 // nextSchedulable returns a transaction that can be scheduled for execution
 // immediately after the given one.
 func (s *mainQueueScheduler) nextSchedulable(tx *mainQueueTransaction) (*mainQueueTransaction, bool) {
-	if tx.seq == math.MaxInt64 {
+	if tx.seq == math.MaxUint64 {
 		return nil, false
 	}
 
